@@ -291,8 +291,14 @@ fn symhist(ops: &str) -> String {
                 }));
                 if res.is_ok() { String::from("ok") } else { String::from("panic") }
             }
-            "bi" => format!("{:?}", t.new_binding(name, &Type::Int(Some(32), IsConst::False))),
-            "bq" => format!("{:?}", t.new_binding(name, &Type::Qubit)),
+            "bi" | "bq" => {
+                let ty = if code == "bi" { Type::Int(Some(32), IsConst::False) } else { Type::Qubit };
+                // a successful binding is followed by what the table says the new id denotes
+                match t.new_binding(name, &ty) {
+                    Ok(id) => format!("Ok({:?})|{}|{:?}", id, t[&id].name(), t[&id].symbol_type()),
+                    Err(e) => format!("Err({:?})", e),
+                }
+            }
             "l" => match t.lookup(name) {
                 Ok(rec) => format!("Ok({:?},{},{:?})", rec.symbol_id(), t[&rec.symbol_id()].name(), rec.symbol_type()),
                 Err(e) => format!("Err({:?})", e),
